@@ -178,6 +178,20 @@ func twinsC08(src *choice.Src, w *World, envReads []string) (tw []*World, dims [
 		add("cwd", t)
 	}
 	{
+		// some of the input files are symbolic links to files with the same bytes
+		t := w.Clone()
+		n := 0
+		for i := range t.Files {
+			if t.Files[i].Kind == "" && src.Chance("twin.link", 2, 3) {
+				t.Files[i].Kind = "link"
+				n++
+			}
+		}
+		if n > 0 {
+			add("linked-inputs", t)
+		}
+	}
+	{
 		t := w.Clone()
 		t.SlowSeed = seed64(src, "twin.slow") | 1
 		add("latency", t)
